@@ -168,6 +168,29 @@ def _case(repo, it, S, spec):
         if text != first_text[like]:
             out.append(("mode flag given as another truth value", f"{'transcript' if kind == 'tx' else 'feature'} {list(exons)} {sn} window={window}: "
                         f"to_bed12(chromosome_relative_coordinates={flag!r}) gives {text!r}; {like!r} gives {first_text[like]!r}", f.qual))
+    # the `name` argument (documented: the attribute of the record to use - "feature_name to guid" - and, when the string is not
+    # an attribute, the string itself)
+    if window is None:
+        import uuid
+        gid = uuid.UUID(int=0xabcdef)
+        try:
+            if kind == "tx":
+                named = mk_transcript(it, exons, S[sn], parent_or_seq_chunk_parent=parent, sequence_name="chr1", transcript_symbol="sym",
+                                      transcript_id="tid-9", guid=gid)
+                asks = [("transcript_id", "tid-9"), ("transcript_symbol", "sym"), ("guid", str(gid)), ("sequence_name", "chr1"), ("a free label", "a free label")]
+            else:
+                named = mk_feature(it, exons, S[sn], parent_or_seq_chunk_parent=parent, sequence_name="chr1", feature_name="fname", feature_id="fid-9", guid=gid)
+                asks = [("feature_id", "fid-9"), ("feature_name", "fname"), ("guid", str(gid)), ("sequence_name", "chr1"), ("a free label", "a free label")]
+            for arg, want_name in asks:
+                n += 1
+                kn, vn = run(it, f, [], {"name": arg}, named)
+                tn = it.builtin("str", [vn], {}, None, 0) if kn == "ok" else f"raise:{vn}"
+                dn = decode(tn)[0] if kn == "ok" else None
+                if dn is None or dn["name"] != want_name:
+                    out.append(("name argument", f"{'transcript' if kind == 'tx' else 'feature'} {list(exons)} {sn}: to_bed12(name={arg!r}) writes name column "
+                                f"{dn['name'] if dn else tn!r}; documented: the value of that attribute ({want_name!r})", f.qual))
+        except Raised:
+            pass
     # an unnamed record: the name column is the text of the (absent) symbol every time - not something picked from a set
     if kind == "tx" and window is None:
         from ..interp import other_hash_seed
